@@ -10,6 +10,7 @@ B. Proved component.  Model/OrderFix.lean mirrors internal/build/ssa_order_fix.g
    fixOrder_safe for all blocks; harness/c01/main.go runs the REAL pass (overlay accessor) on go/ssa built in-process from
    generated functions and the instruction orders are compared with the model; the real output is also judged against the
    specification (permutation / only designated loads move / crossing rule) here in Python."""
+import glob
 import hashlib
 import os
 import random
@@ -147,6 +148,8 @@ class Bench:
         self.toolchain_crashes = []
         self.build_failures = []
         self.reported_seeds = set()
+        self.ir_since = {}
+        self.crash_seeds = {}             # opt -> seeds of the programs of a group that crashed LLVM 14: not rebuilt in other layouts
         self.min_budget = 12 if ctx.tier == "quick" else 150      # minimiser tests for the whole run
 
     def write(self, progs, npk, tag):
@@ -162,10 +165,16 @@ class Bench:
 
     def llgo_parts(self, progs, npk, opt, tag, depth=0):
         """-> [(binary, [programs])]; a failing batch is split until the culprits are single programs"""
+        if not progs:
+            return []
         d = self.write(progs, npk, "%s-%s-%d-%d" % (tag, opt, depth, progs[0].idx))
         out = os.path.join(d, "prog")
         self.n_llgo_builds += 1
-        p = llgo_build(self.ctx, d, out, opt, timeout=3600)
+        t0 = time.time()
+        # the -O0 build also leaves every package's IR in the (private) cache: used to locate LLVM 14 -O2 crashes cheaply
+        p = llgo_build(self.ctx, d, out, opt, timeout=3600, extra_args=["-gen-llfiles"] if opt == "-O0" else [])
+        if opt == "-O0":
+            self.ir_since[npk] = min(self.ir_since.get(npk, t0), t0)
         if p.returncode == 0 and os.path.exists(out):
             return [(out, progs)]
         log = (p.stdout + p.stderr)
@@ -174,15 +183,61 @@ class Bench:
         crash = "LLVMRunPasses" in log and "SIGSEGV" in log
         if len(progs) == 1:
             (self.toolchain_crashes if crash else self.build_failures).append((progs[0], npk, opt, log[-3000:] if not crash else log[:600]))
+            if crash:
+                self.crash_seeds.setdefault(opt, set()).add(progs[0].seed)
             return []
-        if crash and self.ctx.tier == "quick" and depth >= 2:
-            # quick tier: an LLVM 14 optimiser crash is narrowed down to a quarter of the batch only (at most 4 extra builds,
-            # and only when a crash happens); the programs of that quarter are recorded as not judged under this configuration
+        if crash and depth == 0:
+            # LLVM 14's optimiser died (sandbox toolchain).  Find the programs whose IR crashes `opt-14 default<O2>` on its own
+            # and build the rest in one go; fall back to splitting when that does not explain the crash.
+            bad = self.opt_probe(progs, npk)
+            if bad and len(bad) < len(progs):
+                for P in progs:
+                    if P.idx in bad:
+                        self.toolchain_crashes.append((P, npk, opt, "its IR crashes opt-14 -passes=default<O2> (LoopAccessAnalysis / opaque pointers)"))
+                        self.crash_seeds.setdefault(opt, set()).add(P.seed)
+                return self.llgo_parts([P for P in progs if P.idx not in bad], npk, opt, tag, depth + 1)
+        if crash and self.ctx.tier == "quick" and depth >= 3:
+            # quick tier: bounded splitting; the programs of the remaining group are recorded as not judged here
             for P in progs:
                 self.toolchain_crashes.append((P, npk, opt, "one of %d programs built together crashes LLVMRunPasses (not bisected further in the quick tier)" % len(progs)))
+                self.crash_seeds.setdefault(opt, set()).add(P.seed)
             return []
         h = len(progs) // 2
         return self.llgo_parts(progs[:h], npk, opt, tag, depth + 1) + self.llgo_parts(progs[h:], npk, opt, tag, depth + 1)
+
+    def opt_probe(self, progs, npk):
+        """indices of the programs whose -O0 IR (taken from this run's private cache) makes `opt-14 default<O2>` crash"""
+        if not (shutil.which("opt-14") and shutil.which("llvm-extract-14")) or npk not in self.ir_since:
+            return set()
+        since = self.ir_since[npk] - 2
+        lls = []
+        for f in glob.glob(os.path.join(self.ctx.llgo_dir, "xdg", "**", "*.ll"), recursive=True):
+            try:
+                if os.path.getmtime(f) >= since and "ModuleID = 'verifprog" in open(f, errors="replace").readline():
+                    lls.append(f)
+            except OSError:
+                pass
+        work = os.path.join(self.ctx.scratch, "optprobe")
+        shutil.rmtree(work, ignore_errors=True)
+        os.makedirs(work)
+
+        def one(job):
+            f, P = job
+            bc = os.path.join(work, "m%d-p%d.bc" % (lls.index(f), P.idx))
+            e = subprocess.run(["llvm-extract-14", "-opaque-pointers", "-rfunc=(^|[^A-Za-z0-9])P%d[A-Z]" % P.idx, f, "-o", bc], capture_output=True)
+            if e.returncode != 0 or not os.path.exists(bc):
+                return None
+            try:
+                o = subprocess.run(["opt-14", "-opaque-pointers", "-passes=default<O2>", bc, "-o", os.devnull], capture_output=True, timeout=300)
+            except subprocess.TimeoutExpired:
+                return None
+            return P.idx if o.returncode < 0 or o.returncode >= 128 else None
+        t0 = time.time()
+        with ThreadPoolExecutor(max_workers=8) as ex:
+            res = set(x for x in ex.map(one, [(f, P) for f in lls for P in progs]) if x is not None)
+        self.ctx.log("LLVM 14 crashed at -O2; probed %d IR modules x %d programs with opt-14 in %.0fs: crashing programs %s"
+                     % (len(lls), len(progs), time.time() - t0, sorted(res)))
+        return res
 
     def trivial_ok(self, opt):
         d = os.path.join(self.ctx.scratch, "mod-trivial")
@@ -316,16 +371,83 @@ def part_b(ctx, modeld, extra_sources):
         ctx.broken.append("correspondence fixSSAOrderBlock real vs Lean model: %d blocks differ" % mism)
         if not ctx.violations:
             ctx.report_broken("correspondence C01 fixSSAOrderBlock real-vs-model", first)
+    ctx.c01_harness = harness
     return {"orderfix_blocks": len(rows), "orderfix_blocks_with_moves": moved, "orderfix_mismatches": mism, "orderfix_spec_failures": spec_fail,
             "orderfix_sample": rows[3][:3] if len(rows) > 3 else None}
+
+
+# --------------------------------------------------------------------------------------------- part C: cl/blocks
+def blocks_spec_py(succs, preds, infos):
+    """independent re-statement of the specification in Python (the verdict on the real output does not rest on the Lean
+    validator alone): -> None or the reason"""
+    n = len(succs)
+    if len(infos) != n:
+        return "length"
+    order, cur = [], 0
+    while cur is not None and len(order) <= n:
+        order.append(cur)
+        cur = infos[cur][1]
+    if sorted(order) != list(range(n)):
+        return "order %s is not a permutation of the blocks" % order
+    for b in range(n):
+        seen, todo = set(), list(succs[b])
+        while todo:
+            x = todo.pop()
+            if x not in seen:
+                seen.add(x)
+                todo += succs[x]
+        cyc = b in seen
+        if (infos[b][0] == "L") != cyc:
+            return "block %d %s a cycle but its kind is %s" % (b, "lies on" if cyc else "is not on", infos[b][0])
+    ends = [i for i in range(n) if not succs[i] and (preds[i] > 0 or i == 0)]
+    for b in range(n):
+        if infos[b][0] == "A" and not ((b == 0 and preds[0] == 0) or ends == [b]):
+            return "block %d is called always but is neither the entry nothing jumps to nor the unique exit" % b
+    return None
+
+
+def part_c(ctx, modeld, harness, sources):
+    rows = []
+    for files in sources:
+        p = sh([harness, "-blocks"] + files, timeout=600)
+        if p.returncode != 0:
+            raise HarnessBuildError("blocks harness failed on %s:\n%s" % (files, p.stderr[-2000:]))
+        rows += [l.split(" | ") for l in p.stdout.strip().split("\n") if l]
+    rows = [r for r in rows if len(r) == 4]
+    lines = ["blocks %s %s %s" % (r[1] if r[1] else "-", r[2], r[3]) for r in rows]
+    ans, rc, err = run_lines([modeld], lines)
+    if len(ans) != len(lines):
+        raise RuntimeError("modeld_c01 died on the blocks lines: %s" % err[-1000:])
+    bad = loops = multi = 0
+    for r, a in zip(rows, ans):
+        succs = [[int(x) for x in s.split(".")] if s else [] for s in r[1].split(";")]
+        preds = [int(x) for x in r[2].split(".")]
+        if len(succs) > 1:
+            multi += 1
+        if r[3].startswith("panic"):
+            why = "blocks.Infos panicked: " + r[3]
+        else:
+            infos = [(x.split(":")[0], None if x.split(":")[1] == "-" else int(x.split(":")[1])) for x in r[3].split(",")]
+            if any(k == "L" for k, _ in infos):
+                loops += 1
+            why = blocks_spec_py(succs, preds, infos)
+            if why is None and a != "ok":
+                why = "the Lean validator rejects it: " + a
+        if why:
+            bad += 1
+            ctx.report("blocks:" + hashlib.sha256((r[1] + "|" + r[3]).encode()).hexdigest()[:16],
+                       "blocks.Infos on the control-flow graph of %s: %s" % (r[0], why),
+                       {"function": r[0], "succs": r[1], "preds": r[2], "infos_real": r[3], "lean_validator": a, "why": why})
+    return {"blocks_functions": len(rows), "blocks_functions_with_branches": multi, "blocks_functions_with_loops": loops, "blocks_rejected": bad,
+            "blocks_sample": rows[5] if len(rows) > 5 else None}
 
 
 # --------------------------------------------------------------------------------------------- the check
 def run_check(ctx, args):
     quick = ctx.tier == "quick"
     st = lean_check(ctx, ["LlgoVerif.Props.C01"], ["LlgoVerif/Props/C01.lean"],
-                    extra_files=["LlgoVerif/Model/CoreGo.lean", "LlgoVerif/Model/OrderFix.lean", "LlgoVerif/Lemmas/CoreGo.lean",
-                                 "LlgoVerif/Lemmas/OrderFix.lean"], leanchecker=(ctx.tier == "thorough"))
+                    extra_files=["LlgoVerif/Model/CoreGo.lean", "LlgoVerif/Model/OrderFix.lean", "LlgoVerif/Model/Blocks.lean",
+                                 "LlgoVerif/Lemmas/CoreGo.lean", "LlgoVerif/Lemmas/OrderFix.lean", "LlgoVerif/Lemmas/Blocks.lean"], leanchecker=(ctx.tier == "thorough"))
     modeld = build_driver(ctx, "modeld_c01")
     build_llgo(ctx)
     bench = Bench(ctx, modeld)
@@ -386,7 +508,12 @@ def run_check(ctx, args):
         for npk in layouts:
             for opt in ("-O0", "-O2"):
                 t0 = time.time()
-                parts = bench.llgo_parts(live, npk, opt, "%s-l%d" % (tag, npk))
+                skip = bench.crash_seeds.get(opt, set())
+                todo = [P for P in live if P.seed not in skip]
+                for P in live:
+                    if P.seed in skip:
+                        bench.toolchain_crashes.append((P, npk, opt, "skipped: its group crashed LLVMRunPasses in another layout at this level"))
+                parts = bench.llgo_parts(todo, npk, opt, "%s-l%d" % (tag, npk))
                 for binary, sub in parts:
                     res = bench.run_all(binary, sub)
                     for P in sub:
@@ -403,6 +530,8 @@ def run_check(ctx, args):
                    "llgo %s cannot compile a program the reference toolchain accepts (seed %s, %d packages)" % (opt, P.seed, npk),
                    {"seed": P.seed, "packages": npk, "opt": opt, "llgo_output_tail": log, "program": text})
     covb = part_b(ctx, modeld, extra_sources)
+    ofsrc = [[os.path.join(ctx.scratch, "orderfix", "corpus.go")], [os.path.join(ctx.scratch, "orderfix", "gen0.go")]]
+    covb.update(part_c(ctx, modeld, ctx.c01_harness, extra_sources + ofsrc))
 
     for name, s in st.items():
         if s != "ok":
